@@ -19,6 +19,7 @@ import MTVerif.Model.ModuleRender
 import MTVerif.Model.Imports
 import MTVerif.Model.EvalAnno
 import MTVerif.Model.TDStub
+import MTVerif.Model.ModuleBuild
 namespace MT
 open Sexp
 
@@ -93,6 +94,10 @@ def unchkOf (xs : List Sexp) : Except String (List ClassId) :=
   xs.filterMapM (fun x => match x with
     | .list [c, _, _, _, .atom "true"] => do .ok (some (← natOf c))
     | _ => .ok none)
+
+partial def sexpOfTree : Build.Tree → Sexp
+  | .node fs cs => .list [.list (fs.map (fun (kv : String × Nat) => .list [.str kv.1, .atom (ToString.toString kv.2)])),
+                          .list (cs.map (fun (kc : String × Build.Tree) => .list [.str kc.1, sexpOfTree kc.2]))]
 
 def rwOf : Sexp → Except String RW
   | .atom "removeEmpty" => .ok .removeEmpty
@@ -317,6 +322,12 @@ def handle (st : DState) (req : Sexp) : Except String (DState × Sexp) :=
         | _ => .error "bad (name text) pair"
       let i ← (match imp with | .atom "none" => .ok none | y => (strOf y).map some : Except String (Option String))
       .ok (st, .str (renderModule i (← tds.mapM pairOf) (← funcs.mapM pairOf) (← classes.mapM pairOf)))
+  | .list (.atom "buildTree" :: es) => do
+      -- C12: `build_module_stubs` on the entries of one module: ((class path ...) function name), in order
+      let entries ← es.mapM (fun x => match x with
+        | .list [.list ps, n] => do .ok ({ path := ← ps.mapM strOf, name := ← strOf n } : Build.Entry)
+        | _ => .error "bad entry")
+      .ok (st, sexpOfTree (Build.build entries))
   | .list [.atom "tdNames", hint, t] => do
       let ns := Render.tdNames (← strOf hint) (← tyOf t)
       .ok (st, .list [.list (ns.map (fun n => .str n)), sexpOfBool (Render.hasNameCollision ns)])
